@@ -75,6 +75,68 @@ def py_kind(t):
             datetime.datetime: 'datetime'}.get(t, 'other')
 
 
+def _iso(d):
+    """the text `Codec.fmtDate` gives (four-digit year; offset as +hhmm[ss[.ffffff]])"""
+    t = f'{d.year:04d}-{d.month:02d}-{d.day:02d}T{d.hour:02d}:{d.minute:02d}:{d.second:02d}.{d.microsecond:06d}'
+    off = d.utcoffset()
+    if off is None:
+        return t
+    import datetime
+    neg = off < datetime.timedelta(0)
+    off = -off if neg else off
+    secs, us = off.days * 86400 + off.seconds, off.microseconds
+    t += ('-' if neg else '+') + f'{secs // 3600:02d}{secs % 3600 // 60:02d}'
+    if secs % 60 or us:
+        t += f'{secs % 60:02d}' + (f'.{us:06d}' if us else '')
+    return t
+
+
+def _date_probes():
+    import datetime as D
+    tz = lambda **k: D.timezone(D.timedelta(**k))
+    return [D.datetime(7, 1, 2, 3, 4, 5, 6), D.datetime(999, 12, 31, 23, 59, 59, 999999, tz(hours=5, minutes=30)),
+            D.datetime(2024, 2, 29, 0, 0, 0, 0, D.timezone.utc), D.datetime(1000, 1, 1, 0, 0, 0, 0, tz(seconds=-3661)),
+            D.datetime(9999, 12, 31, 12, 0, 0, 1, tz(seconds=1, microseconds=1))]
+
+
+def behaves_like(dt, side, kind):
+    """When the *shape* of a converter is not one the extractor knows (it was rewritten: a named function instead of a
+    lambda, another formatting idiom), ask the converter itself: it is classified by what it does on a fixed probe
+    set.  (The differential pass over thousands of values runs on every converter whatever its classification.)"""
+    import decimal
+    f = dt.to_string if side == 'to' else dt.from_string
+    try:
+        if side == 'to':
+            if kind == 'strftimeIso':
+                return all(f(p) == _iso(p) for p in _date_probes())
+            if kind == 'str':
+                probes = {'str': ['', 'a b', 'é'], 'int': [0, -12, 10 ** 30], 'float': [0.5, -1e300],
+                          'decimal': [decimal.Decimal('1.50')]}.get(py_kind(dt.eType))
+                return probes is not None and all(f(p) == str(p) for p in probes)
+            if kind == 'lowerStr':
+                return f(True) == 'true' and f(False) == 'false'
+        else:
+            if kind == 'parseDate':
+                return all(f(_iso(p)) == p and f(_iso(p)).utcoffset() == p.utcoffset() for p in _date_probes())
+            if kind == 'int':
+                return all(f(t) == v and type(f(t)) is int for t, v in (('0', 0), ('-12', -12), ('1' + '0' * 30, 10 ** 30)))
+            if kind == 'float':
+                return all(f(t) == v and type(f(t)) is float for t, v in (('0.5', 0.5), ('-1e+300', -1e300), ('inf', float('inf'))))
+            if kind == 'decimal':
+                return all(f(t) == decimal.Decimal(t) and type(f(t)) is decimal.Decimal for t in ('1.50', '-0', '1E+3'))
+            if kind == 'inTrueList':
+                return [f(t) for t in ('true', 'True', 'false', 'False', '1', 'TRUE', 'yes', '')] == [True, True] + [False] * 6
+            if kind == 'ident':
+                return all(f(t) == t for t in ('', 'a b', 'é'))
+    except Exception:
+        return False
+    return False
+
+
+EXPECTED_KINDS = {'str': ('str', 'ident'), 'int': ('str', 'int'), 'float': ('str', 'float'), 'decimal': ('str', 'decimal'),
+                  'bool': ('lowerStr', 'inTrueList'), 'datetime': ('strftimeIso', 'parseDate')}
+
+
 def datatype_rows():
     common.use_repo()
     from pyecore import ecore as E
@@ -84,7 +146,14 @@ def datatype_rows():
         for n in sorted(dir(mod)):
             v = getattr(mod, n)
             if isinstance(v, E.EDataType) and not isinstance(v, E.EEnum):
-                rows.append((f'{modname}.{v.name}', py_kind(v.eType), classify_to(v, E), classify_from(v, E), v))
+                tk, fk = classify_to(v, E), classify_from(v, E)
+                want = EXPECTED_KINDS.get(py_kind(v.eType))
+                if want:
+                    if tk == 'unknown' and behaves_like(v, 'to', want[0]):
+                        tk = want[0]
+                    if fk == 'unknown' and behaves_like(v, 'from', want[1]):
+                        fk = want[1]
+                rows.append((f'{modname}.{v.name}', py_kind(v.eType), tk, fk, v))
     return rows
 
 
